@@ -7,6 +7,11 @@
 //!   begin dyn  cap_pages=.. per_page=.. hdr=30     DynamicContainer (+ ResidencyContainer)
 //!   begin inst cap_pages=.. per_page=.. hdr=30     Installation
 //!   begin arch hdr=30                              ArchiveManager alone (all three BLTE modes)
+//!   begin lim  cap_pages=.. per_page=.. hdr=30     size / offset limits: `lw pos fill n` = an
+//!                                                  Installation (K + O) and a DynamicContainer (O)
+//!                                                  on a sparse data.000 of `pos` bytes
+//! inst also has `open` (drop + Installation::open WITHOUT initialize) and `init` (initialize()),
+//! arch has `anew` (a new ArchiveManager WITHOUT open_all).
 //! A payload is written `<hex prefix> <fill byte> <n>` = prefix followed by n copies of fill.
 use cascette_client_storage::container::{AccessMode, Container, DynamicContainer, ResidencyContainer};
 use cascette_client_storage::index::update::{ENTRIES_PER_PAGE, MIN_UPDATE_SECTION_SIZE, UPDATE_PAGE_SIZE};
@@ -146,12 +151,15 @@ struct Arch {
     dir: tempfile::TempDir,
     mgr: ArchiveManager,
     entries: Vec<AEntry>,
+    /// the manager was built by `anew` and has not opened anything yet
+    unopened: bool,
 }
 enum Mode {
     None,
     Dyn(Box<Dyn>),
     Inst(Box<Inst>),
     Arch(Box<Arch>),
+    Lim,
 }
 
 struct H {
@@ -209,7 +217,7 @@ impl H {
             self.trace.push(line.to_string());
             let kind = toks.get(1).copied().unwrap_or("");
             let want = match kind {
-                "dyn" | "inst" => format!("begin {kind} {}", consts()),
+                "dyn" | "inst" | "lim" => format!("begin {kind} {}", consts()),
                 "arch" => format!("begin arch hdr={LOCAL_HEADER_SIZE}"),
                 _ => return "bad-op".into(),
             };
@@ -231,9 +239,10 @@ impl H {
                     let inst = new_inst(&self.rt, dir.path());
                     Mode::Inst(Box::new(Inst { dir, inst, refm: HashMap::new(), uninit: false }))
                 }
+                "lim" => Mode::Lim,
                 _ => {
                     let mgr = ArchiveManager::new(dir.path());
-                    Mode::Arch(Box::new(Arch { dir, mgr, entries: vec![] }))
+                    Mode::Arch(Box::new(Arch { dir, mgr, entries: vec![], unopened: false }))
                 }
             };
             return "ok".into();
@@ -245,6 +254,7 @@ impl H {
             Mode::Dyn(d) => self.exec_dyn(d, s, &toks),
             Mode::Inst(i) => self.exec_inst(i, s, &toks),
             Mode::Arch(a) => self.exec_arch(a, s, &toks),
+            Mode::Lim => self.exec_lim(s, &toks),
         }));
         self.mode = mode;
         match r {
@@ -557,6 +567,7 @@ impl H {
                         let t = total as u64;
                         if self.last_total > t { self.st_small_after_large += 1; }
                         self.last_total = t;
+                        a.unopened = false;
                         a.entries.push(AEntry { id, off, total, key, data, blte });
                         format!("ok {id} {off} {total} {}", hex::encode(key))
                     }
@@ -591,6 +602,8 @@ impl H {
                                 self.fail(s, &format!("arch-read-written-entry-other-bytes-{}-{when}", payload_shape(&e.data)), format!("read_content of entry {ix} returned {} bytes, {} were written and they differ", b.len(), e.data.len()));
                             }
                         }
+                        // a manager that has not opened anything knows no archive (K compares)
+                        Err(er) if a.unopened && err_class(er) == "err:noarchive" => s.tally("arch.read_before_open_noarchive"),
                         Err(er) => {
                             self.fail(s, &format!("arch-read-written-entry-{}-{when}", &err_class(er)[4..]), format!("read of entry {ix} ({} bytes written) failed: {er}", e.data.len()));
                         }
@@ -605,18 +618,106 @@ impl H {
             // goes through create_archive on the existing data.000
             ["anew"] => {
                 a.mgr = ArchiveManager::new(a.dir.path());
+                a.unopened = true;
                 self.last_total = 0;
                 "ok".into()
             }
             ["areopen"] => {
                 let mut m = ArchiveManager::new(a.dir.path());
                 match self.rt.block_on(m.open_all()) {
-                    Ok(()) => { a.mgr = m; self.last_total = 0; "ok".into() }
+                    Ok(()) => { a.mgr = m; a.unopened = false; self.last_total = 0; "ok".into() }
                     Err(e) => { self.fail(s, "arch-reopen-err", format!("open_all failed: {e}")); err_class(&e).into() }
                 }
             }
             _ => return None,
         };
+        Some(resp)
+    }
+
+    /// `lw pos fill n`: what the storage does with a data file that already has `pos` bytes.
+    /// K: result of `Installation::write_file`, the index entry of the object in memory and after
+    /// drop + open + initialize.  O: the object must read back exactly, at once and after the
+    /// reopen, through the Installation and through a DynamicContainer on the same kind of file.
+    fn exec_lim(&mut self, s: &mut Session, toks: &[&str]) -> Option<String> {
+        // `lwd` = the same, and also on a DynamicContainer (whose open() reads the whole data file
+        // into memory - SegmentAllocator::load_existing - so only a few positions use it)
+        let [op @ ("lw" | "lwd"), pos, fill, n] = toks else { return None };
+        let with_dyn = *op == "lwd";
+        let (pos, fill, n): (u64, u8, usize) = (pos.parse().ok()?, fill.parse().ok()?, n.parse().ok()?);
+        if n > 1 << 20 || pos > 1 << 34 { return None; }
+        let data = vec![fill; n];
+        let key = ekey_of(&data);
+        let total = (LOCAL_HEADER_SIZE + 9 + n) as u64;
+        let beyond = pos >= 1 << 30;
+        let zone = if pos + total <= 1 << 30 { "below-1GiB" } else if !beyond { "straddles-1GiB" } else if pos < 1 << 32 { "1GiB-4GiB" } else { "from-4GiB" };
+        s.tally(&format!("lim.{zone}"));
+        let sparse = |p: &std::path::Path| {
+            let f = std::fs::OpenOptions::new().write(true).create(true).truncate(false).open(p).expect("data.000");
+            f.set_len(pos).expect("set_len (sparse)");
+        };
+        let show = |e: Option<cascette_client_storage::IndexEntry>| match e {
+            Some(e) => format!("{}:{}:{}", e.archive_id(), e.archive_offset(), e.size),
+            None => "none".into(),
+        };
+        // ---- Installation (K + O)
+        let dir = tempfile::tempdir().expect("tempdir");
+        drop(new_inst(&self.rt, dir.path()));
+        sparse(&dir.path().join("inst").join("data").join("data.000"));
+        let inst = new_inst(&self.rt, dir.path());
+        let resp = match self.rt.block_on(inst.write_file(data.clone(), false)) {
+            Err(e) => err_class(&e).to_string(),
+            Ok(_) => {
+                fn find_in(rt: &tokio::runtime::Runtime, i: &Installation, k: K9) -> Option<cascette_client_storage::IndexEntry> {
+                    rt.block_on(i.get_all_index_entries()).into_iter().find(|e| e.key == k)
+                }
+                let mem = find_in(&self.rt, &inst, k9(&key));
+                let (off, size) = mem.as_ref().map(|e| (u64::from(e.archive_offset()), e.size)).unwrap_or((u64::MAX, 0));
+                match self.rt.block_on(inst.read_file_by_encoding_key(&EncodingKey::from_bytes(key))) {
+                    Ok(b) if b == data => {}
+                    Ok(b) => self.fail(s, &format!("lim-inst-read-other-bytes-immediately-{zone}"), format!("data.000 of {pos} bytes: the {n} bytes just written read back as {} other bytes", b.len())),
+                    Err(e) => self.fail(s, &format!("lim-inst-read-{}-immediately-{zone}", &err_class(&e)[4..]), format!("data.000 of {pos} bytes: read of the object just written failed: {e}")),
+                }
+                drop(inst);
+                let inst2 = new_inst(&self.rt, dir.path());
+                let re = find_in(&self.rt, &inst2, k9(&key));
+                let ok2 = matches!(self.rt.block_on(inst2.read_file_by_encoding_key(&EncodingKey::from_bytes(key))), Ok(b) if b == data);
+                if !ok2 {
+                    let sig = if beyond { "offset-beyond-1GiB-wraps-after-reopen".to_string() } else { format!("lim-inst-read-wrong-after-reopen-{zone}") };
+                    self.fail(s, &sig, format!("Installation on a data.000 of {pos} bytes: write_file({n} bytes) stored the entry at offset {off}; after drop + open + initialize the index says {} and the object no longer reads back", show(re.clone())));
+                    self.failed = false;
+                }
+                format!("ok {off} {size} mem={} reopened={}", show(mem), show(re))
+            }
+        };
+        // ---- DynamicContainer (O only: it does not show its index entries)
+        if with_dyn && pos < 1 << 31 {
+            let dir = tempfile::tempdir().expect("tempdir");
+            std::fs::create_dir_all(dir.path().join("data")).expect("mkdir");
+            sparse(&dir.path().join("data").join("data.000"));
+            let mut r = ResidencyContainer::new("verif".into(), AccessMode::ReadWrite, dir.path().join("residency"));
+            self.rt.block_on(r.initialize()).expect("residency init");
+            let res = Arc::new(r);
+            let c = new_dyn(&self.rt, dir.path(), res.clone());
+            if self.rt.block_on(c.write(&md5_of(&data), &data)).is_ok() {
+                fn rd_dyn(rt: &tokio::runtime::Runtime, c: &DynamicContainer, key: &[u8; 16], n: usize) -> Option<Vec<u8>> {
+                    let mut buf = vec![0u8; n + 8];
+                    rt.block_on(c.read(key, 0, 0, &mut buf)).ok().map(|k| buf[..k].to_vec())
+                }
+                if !matches!(rd_dyn(&self.rt, &c, &key, n), Some(b) if b == data) {
+                    self.fail(s, &format!("lim-dyn-read-wrong-immediately-{zone}"), format!("DynamicContainer on a data.000 of {pos} bytes: the object just written does not read back"));
+                }
+                drop(c);
+                let c2 = new_dyn(&self.rt, dir.path(), res);
+                if !matches!(rd_dyn(&self.rt, &c2, &key, n), Some(b) if b == data) {
+                    let sig = if beyond { "offset-beyond-1GiB-wraps-after-reopen".to_string() } else { format!("lim-dyn-read-wrong-after-reopen-{zone}") };
+                    self.fail(s, &sig, format!("DynamicContainer on a data.000 of {pos} bytes: write({n} bytes) succeeded; after drop + new + open the object no longer reads back (the .idx offset field has 30 bits)"));
+                    self.failed = false;
+                }
+            } else {
+                self.fail(s, &format!("lim-dyn-write-err-{zone}"), format!("DynamicContainer on a data.000 of {pos} bytes: write failed"));
+            }
+        }
+        if beyond { self.st_hist_reads += 1; }
         Some(resp)
     }
 }
@@ -791,6 +892,19 @@ fn run_store(g: &mut Gen, rng: &mut Rng, kind: &str, cases: usize, thorough: boo
                     if rng.chance(1, 2) { g.keys.retain(|x| k9(x) != k9(&k)); }
                 }
                 else if x < 74 && kind == "dyn" { if rng.chance(1, 2) { g.emit(format!("flush {}", rng.below(17))); } else { g.emit("flushall".into()); } }
+                else if x >= 96 && kind == "inst" && c % 3 == 2 {
+                    // a session that skips initialize(): drop + Installation::open, maybe reads
+                    // and writes, then initialize() or a proper reopen
+                    g.emit("open".into());
+                    g.s.tally("inst.session_without_initialize");
+                    let k2 = g.pick_key(rng);
+                    g.emit(format!("r {}", hex::encode(k2)));
+                    for _ in 0..rng.below(3) { let sz = rng.range(0, 300) as usize; g.write_line(rng, kind, sz); }
+                    if rng.chance(1, 2) { g.emit("init".into()); } else { g.emit("reopen".into()); }
+                    let k3 = g.pick_key(rng);
+                    g.emit(format!("r {}", hex::encode(k3)));
+                }
+                else if x >= 95 && kind == "inst" { g.emit("init".into()); }
                 else if x < 74 + reopen_w {
                     g.emit("reopen".into());
                     let k2 = g.pick_key(rng);
@@ -865,6 +979,7 @@ fn run_arch(g: &mut Gen, rng: &mut Rng, cases: usize) {
                     // beyond the end of the file, other archive
                     7 => { let last = ents.last().copied().unwrap_or(e); g.emit(format!("araw {} {} {}", e.0, last.1, last.2 + 1 + rng.below(5) as u32)); }
                     8 => { g.emit(format!("ac {} {} {}", e.0 + 1, e.1, e.2)); }
+                    9 if rng.chance(1, 2) => { g.emit("anew".into()); g.s.tally("arch.manager_without_open_all"); }
                     _ => { g.emit("areopen".into()); g.emit(format!("ac {} {} {}", e.0, e.1, e.2)); }
                 }
             }
@@ -875,6 +990,25 @@ fn run_arch(g: &mut Gen, rng: &mut Rng, cases: usize) {
         }
         g.end("arch");
     }
+}
+
+/// size / offset limits: write positions around 2^30 (the .idx offset width), 2^31, 2^32 (u32
+/// offset) on sparse data files
+fn run_lim(g: &mut Gen, rng: &mut Rng, random: usize, thorough: bool) {
+    g.begin("lim");
+    let g30: u64 = 1 << 30;
+    let mut ps: Vec<(u64, usize)> = vec![(0, 5), (1000, 0), (g30 - 100, 10), (g30 - 49, 10), (g30 - 48, 10), (g30 - 1, 3), (g30, 10), (g30 + 5, 10),
+        (2 * g30, 1), (2 * g30 + 77, 40), (3 * g30 + 12345, 100), (4 * g30 - 200, 10), (4 * g30 - 1, 10), (4 * g30, 10), (4 * g30 + 5, 3)];
+    for _ in 0..random {
+        let base = *rng.pick(&[g30, g30, 2 * g30, 3 * g30, 4 * g30]);
+        let d = rng.range(0, 5000);
+        ps.push((if rng.chance(1, 2) { base + d } else { base - d.min(base) }, rng.range(0, 300) as usize));
+    }
+    for (i, (pos, n)) in ps.into_iter().enumerate() {
+        let with_dyn = i == 3 || i == 7 || (thorough && pos < 1 << 31 && i % 4 == 0);
+        g.emit(format!("{} {pos} {} {n}", if with_dyn { "lwd" } else { "lw" }, rng.byte()));
+    }
+    g.end("lim");
 }
 
 fn main() {
@@ -906,6 +1040,7 @@ fn main() {
         run_store(&mut g, &mut rng, "dyn", if t { 1500 } else { 170 }, t);
         run_store(&mut g, &mut rng, "inst", if t { 900 } else { 110 }, t);
         run_arch(&mut g, &mut rng, if t { 700 } else { 90 });
+        run_lim(&mut g, &mut rng, if t { 60 } else { 10 }, t);
     }
     s.finish();
 }
